@@ -67,6 +67,19 @@ def lit(v):
     return ("num", v)
 
 
+def spell(v, rnd):
+    """a literal of value v in one of the source spellings X has for it: a number, `true`/`false`, a character
+    constant or a hexadecimal number (each is its own AST node and goes through its own code-generation path)"""
+    x = rnd.random() if rnd is not None else 1.0
+    if v in (0, 1) and x < 0.4:
+        return ("bool", bool(v))
+    if 32 <= v < 127 and v not in (39, 92) and x < 0.3:
+        return ("chr", v)
+    if 0 <= v <= 0x7FFFFFFF and x < 0.15:
+        return ("hex", v)
+    return lit(v)
+
+
 def instantiate(e, vals, mode, rnd=None, valnames=None):
     """leaves -> literal (K), val name (K via val), variable (R)"""
     k = e[0]
@@ -76,7 +89,7 @@ def instantiate(e, vals, mode, rnd=None, valnames=None):
         if mode == "K" and valnames is not None and i in valnames:
             m = "V"
         if m == "K":
-            return lit(vals[i])
+            return spell(vals[i], rnd)
         if m == "V":
             return ("var", "c%d" % i)
         return ("var", "x%d" % i)
@@ -90,7 +103,7 @@ def instantiate(e, vals, mode, rnd=None, valnames=None):
 def program(e, vals, mode, context, rnd, boolean):
     valnames = set(i for i in range(len(vals)) if rnd.random() < 0.3)
     E = instantiate(e, vals, mode, rnd, valnames)
-    globs = [("val", "c%d" % i, lit(v)) for i, v in enumerate(vals)]
+    globs = [("val", "c%d" % i, spell(v, rnd)) for i, v in enumerate(vals)]
     globs += [("var", "x%d" % i) for i in range(len(vals))] + [("var", "r"), ("array", "tab", ("num", 8))]
     init = [("ass", ("var", "x%d" % i), lit(v)) for i, v in enumerate(vals)]
     init += [("ass", ("sub", "tab", ("num", i)), ("num", 1000 + i)) for i in range(8)]
